@@ -48,12 +48,13 @@ class Gram:
                     alts.append(a)
             rm = (" {" + ", ".join(self.rule_meta[nt]) + "}") if self.rule_meta.get(nt) else ""
             out.append(f"{nt}{rm}: {' | '.join(alts)};")
+        ln = getattr(self, "layout_name", "Layout")       # the rule is recognised by its lower-cased name
         if self.layout == "ws":
-            out.append("Layout: LayoutItem+;\nLayoutItem: WS;")
+            out.append(ln + ": LayoutItem+;\nLayoutItem: WS;")
         elif self.layout == "comments":
-            out.append("Layout: LayoutItem*;\nLayoutItem: WS | CommentLine;")
+            out.append(ln + ": LayoutItem*;\nLayoutItem: WS | CommentLine;")
         elif self.layout == "nested":
-            out.append("Layout: LayoutItem*;\nLayoutItem: WS | Comment;\nComment: '/*' Corncs '*/' | CommentLine;\n"
+            out.append(ln + ": LayoutItem*;\nLayoutItem: WS | Comment;\nComment: '/*' Corncs '*/' | CommentLine;\n"
                        "Corncs: Cornc*;\nCornc: Comment | NotComment | WS;")
         if self.terms or self.layout:
             out.append("terminals")
@@ -382,7 +383,10 @@ def random_grammar(rng, max_nts=4, max_alts=3, max_rhs=4, nterm=3, p_empty=0.15,
     if not terms:
         terms = {tnames[0]: chars[0]}
         prods.append((nts[0], [tnames[0]]))
-    return Gram(prods, terms, layout=layout)
+    g = Gram(prods, terms, layout=layout)
+    if layout is not None and rng.random() < 0.25:
+        g.layout_name = rng.choice(["layout", "LAYOUT", "LayOut"])
+    return g
 
 
 def layered_grammar(rng, nterm=5):
